@@ -4,6 +4,7 @@
 package main
 
 import (
+	"time"
 	"bytes"
 	"encoding/json"
 	"fmt"
@@ -57,6 +58,8 @@ type lfsServer struct {
 	slowGet    func(w http.ResponseWriter, r *http.Request, b []byte) // serves a storage GET outside the server lock (C02 concurrency)
 	hdrStyle   int  // how the server spells the header NAMES of the actions it offers: 0 canonical, 1 lower, 2 upper, 3 mixed
 	offerExtra bool // offered actions also carry Authorization (and, for uploads, Content-Type)
+	lapseUploads bool              // the FIRST upload action offered for an object has already expired (a cached pre-signed URL): the client has to ask again
+	lapsedOnce   map[string]bool
 	transferPlan []string          // C18: `transfer` of the i-th answer to an UPLOAD batch ("tus" only when the client advertised it; "" = member left out = basic; the last entry repeats)
 	uploadAnswers int
 	answerLog    []string          // `transfer` of the answers to upload batches since the harness last cleared it ("-" = member left out)
@@ -205,8 +208,10 @@ func (s *lfsServer) handle(w http.ResponseWriter, r *http.Request) {
 		}
 		json.Unmarshal(body, &req)
 		type act struct {
-			Href   string            `json:"href"`
-			Header map[string]string `json:"header,omitempty"`
+			Href      string            `json:"href"`
+			Header    map[string]string `json:"header,omitempty"`
+			ExpiresAt string            `json:"expires_at,omitempty"`
+			ExpiresIn int               `json:"expires_in,omitempty"`
 		}
 		type oerr struct {
 			Code    int    `json:"code"`
@@ -259,7 +264,19 @@ func (s *lfsServer) handle(w http.ResponseWriter, r *http.Request) {
 			if req.Operation == "upload" {
 				if !have {
 					hdr := s.actHeader("upload", o.Oid)
-					ob.Actions = map[string]act{"upload": {Href: s.srv.URL + "/storage/" + o.Oid, Header: hdr}}
+					up := act{Href: s.srv.URL + "/storage/" + o.Oid, Header: hdr}
+					if s.lapseUploads && !s.lapsedOnce[o.Oid] {
+						if s.lapsedOnce == nil {
+							s.lapsedOnce = map[string]bool{}
+						}
+						s.lapsedOnce[o.Oid] = true
+						if len(o.Oid) > 0 && o.Oid[0]%2 == 0 {
+							up.ExpiresAt = time.Now().Add(-time.Minute).UTC().Format(time.RFC3339)
+						} else {
+							up.ExpiresIn = 2 // inside the client's 5 s safety margin
+						}
+					}
+					ob.Actions = map[string]act{"upload": up}
 					if !s.noVerify {
 						ob.Actions["verify"] = act{Href: s.srv.URL + "/verify", Header: s.actHeader("verify", o.Oid)}
 					}
